@@ -126,16 +126,21 @@ def k0_protection(check, ic, g, rule='C10.R4'):
             varsname = n.targets[0].id
     if varsname is None:
         raise AnalysisError('cannot find the freshly built series holder in ' + ic.qualname)
-    zero_sets = set()
-    for n in ast.walk(ic.node):
-        if isinstance(n, ast.If) and isinstance(n.test, ast.Compare) and isinstance(n.test.ops[0], ast.In) and \
-                _mentions_attr(n.test.comparators[0], 'InitialConditions'):
-            for a in ast.walk(n):
-                if isinstance(a, ast.Assign) and isinstance(a.targets[0], ast.Subscript) and isinstance(a.targets[0].value, ast.Name) \
-                        and a.targets[0].value.id != varsname and isinstance(n.test.left, ast.Name) and \
-                        unparse(a.targets[0].slice) == n.test.left.id:
-                    zero_sets.add(a.targets[0].value.id)
     from ..cfg import atomic_facts
+    # the time-zero set: a mapping (other than the series holder) that receives `Z[var] = ...` only where `var` is known
+    # to carry an initial condition (branch-outcome fact `var in <...>.InitialConditions`)
+    zero_sets = set()
+    for nd in g.stmt_nodes():
+        if nd.kind != 'stmt' or not isinstance(nd.ast, ast.Assign):
+            continue
+        for t in nd.ast.targets:
+            if isinstance(t, ast.Subscript) and isinstance(t.slice, ast.Name) and unparse(t.value) != varsname and \
+                    isinstance(t.value, (ast.Name, ast.Attribute)):
+                for test, outcome in g.conditions_at(nd):
+                    for _, v, e in atomic_facts(test, outcome):
+                        if v is True and isinstance(e, ast.Compare) and len(e.ops) == 1 and isinstance(e.ops[0], ast.In) and \
+                                isinstance(e.left, ast.Name) and e.left.id == t.slice.id and _mentions_attr(e.comparators[0], 'InitialConditions'):
+                            zero_sets.add(unparse(t.value))
 
     def is_zero_membership(e, key):
         """`key in <time-zero set>` / `key in <...>.InitialConditions` (possibly .keys())"""
@@ -146,14 +151,15 @@ def k0_protection(check, ic, g, rule='C10.R4'):
         if isinstance(tgt, ast.Call) and call_name(tgt) == 'keys' and isinstance(tgt.func, ast.Attribute):
             tgt = tgt.func.value
         # names bound to the time-zero set by plain copies
-        return (isinstance(tgt, ast.Name) and tgt.id in zero_alias) or (isinstance(tgt, ast.Attribute) and tgt.attr == 'InitialConditions')
+        return unparse(tgt) in zero_alias or (isinstance(tgt, ast.Attribute) and tgt.attr == 'InitialConditions')
     zero_alias = set(zero_sets)
     changed = True
     while changed:
         changed = False
         for n in ast.walk(ic.node):
-            if isinstance(n, ast.Assign) and len(n.targets) == 1 and isinstance(n.targets[0], ast.Name) and isinstance(n.value, ast.Name):
-                a_, b_ = n.targets[0].id, n.value.id
+            if isinstance(n, ast.Assign) and len(n.targets) == 1 and isinstance(n.targets[0], (ast.Name, ast.Attribute)) and \
+                    isinstance(n.value, (ast.Name, ast.Attribute)):
+                a_, b_ = unparse(n.targets[0]), unparse(n.value)
                 if (a_ in zero_alias) != (b_ in zero_alias):
                     zero_alias.update((a_, b_))
                     changed = True
